@@ -166,8 +166,20 @@ func ruleHash(state *core.BuildState, target *core.BuildTarget, runtime bool) []
 			h.Write([]byte(algo))
 		}
 	}
-	for _, source := range target.AllSources() {
+	for _, source := range target.Sources {
 		h.Write([]byte(source.String()))
+	}
+	// The names of named source groups are part of the rule too (they become $SRCS_<NAME>).
+	srcNames := make([]string, 0, len(target.NamedSources))
+	for name := range target.NamedSources {
+		srcNames = append(srcNames, name)
+	}
+	sort.Strings(srcNames)
+	for _, name := range srcNames {
+		h.Write([]byte(name))
+		for _, source := range target.NamedSources[name] {
+			h.Write([]byte(source.String()))
+		}
 	}
 	for _, out := range target.DeclaredOutputs() {
 		h.Write([]byte(out))
